@@ -83,6 +83,26 @@ func init() {
 			}
 		}
 		sb.WriteString("\ndef dropDatabaseAssignmentCalls : List String := " + LeanStrList(ddCalls) + "\n")
+		// a master that takes over starts from an empty storage state: newStorageCluster builds the
+		// cluster around models.NewStorageState() and reads nothing from the repository
+		nsc := FindFunc(sc, "", "newStorageCluster")
+		if nsc == nil {
+			return "", fmt.Errorf("newStorageCluster not found")
+		}
+		sb.WriteString("\ndef newStorageClusterShape : List String := " + LeanStrList(c18StmtShape(nsc.Body.List)) + "\n")
+		sb.WriteString("\ndef newStorageClusterCalls : List String := " + LeanStrList(CallSeq(nsc)) + "\n")
+		sb.WriteString("\ndef newStateManagerCalls : List String := " + LeanStrList(CallSeq(FindFunc(sm, "", "NewStateManager"))) + "\n")
+		_, smf, err := ParseFile(repo, "coordinator/master/state_machine_factory.go")
+		if err != nil {
+			return "", err
+		}
+		var startCalls []string
+		for _, cname := range CallSeq(FindFunc(smf, "StateMachineFactory", "Start")) {
+			if strings.HasPrefix(cname, "f.create") {
+				startCalls = append(startCalls, cname)
+			}
+		}
+		sb.WriteString("\ndef factoryStartOrder : List String := " + LeanStrList(startCalls) + "\n")
 		capv := int64(-1)
 		ast.Inspect(FindFunc(sm, "", "NewStateManager"), func(n ast.Node) bool {
 			if ce, ok := n.(*ast.CallExpr); ok {
